@@ -255,4 +255,13 @@ theorem capture_source_never_faults (s : SxVerif.CaptureSource.Sys) (h : SxVerif
 theorem capture_source_closed_stays {s t : SxVerif.CaptureSource.Sys} (hs : SxVerif.CaptureSource.Step s t)
     (hc : s.closed = true) : t.closed = true := SxVerif.CaptureSource.closed_mono hs hc
 
+
+/-- (T) the engine runs of a chunked port scan (one per 200 port ranges, each with its own socket and receiver
+    goroutine) share ONE scan method, and the receiver of a finished run is not waited for: it may still be decoding
+    its last frame when the next run's receiver decodes its first.  `startPortScanEngine` hands every run the method
+    behind one mutex (`lockedPacketMethod`: lock, deferred unlock, the method's own `ProcessPacketData`), so the
+    processors run one frame at a time — which is what `C06_history` assumes of a history of frames (D31; dynamic side:
+    the reply-flood run of `e2e` from a race-enabled build of sx). -/
+theorem chunk_receivers_serialised : SxVerif.Generated.chunksShareLockedMethod = true := by decide
+
 end SxVerif.C01
